@@ -12,7 +12,7 @@ copy of /repo and /verif under /tmp/mmseed/slot<k> (never /repo itself):
   4. runs the selected checks and records which fire.
 Results are appended to /verif/seeded/results.jsonl and printed as a table."""
 import sys, os, subprocess, json, time, threading, queue, glob
-ROOT = '/tmp/mmseed'
+ROOT = f'/tmp/mmseed-{os.getpid()}'  # one scratch root per invocation: concurrent runs must not share slots
 SEEDED = '/verif/seeded'
 ENV = dict(os.environ, CARGO_NET_OFFLINE='true', RUST_BACKTRACE='0')
 
@@ -115,5 +115,6 @@ def main():
     ts = [threading.Thread(target=worker, args=(k,)) for k in range(min(j, max(1, len(sel))))]
     for t in ts: t.start()
     for t in ts: t.join()
+    sh(f'rm -rf {ROOT}')
 
 main()
